@@ -131,6 +131,10 @@ pub struct Knobs {
     pub sub_cconvs: Vec<String>,
     /// chance (in 1/100) that a jump target / return site is simply the next block (straight-line chains)
     pub p_chain: u64,
+    /// chance (num, den) that the second jump after a conditional branch is an indirect jump
+    pub p_cbranch_ind: (u64, u64),
+    /// minimal number of target hints of an indirect jump (at most 2 are generated)
+    pub min_hints: u64,
 }
 impl Default for Knobs {
     fn default() -> Knobs {
@@ -138,6 +142,7 @@ impl Default for Knobs {
             subs: (1, 3), blocks: (1, 5), w_branch: 20, w_cbranch: 25, w_cbranch_ret: 5, w_return: 12, w_ext_call: 25,
             w_int_call: 10, w_callind: 4, w_branchind: 4, w_nojump: 2, w_callother: 1, w_single_cbranch: 1,
             p_no_ret: 10, p_empty_sub: 4, p_forward: 60, sub_cconvs: vec!["".to_string()], p_chain: 0,
+            p_cbranch_ind: (1, 8), min_hints: 0,
         }
     }
 }
@@ -229,8 +234,8 @@ pub fn gen_program(rng: &mut Rng, k: &Knobs, externs: &[ExternSymbol], hooks: &m
                 1 => {
                     let c = hooks.cond(rng, &ctx);
                     jmps.push(Term { tid: next_tid(&mut instr), term: Jmp::CBranch { target: pick_target(rng), condition: c } });
-                    if rng.chance(1, 8) {
-                        let n = rng.below(3);
+                    if rng.chance(k.p_cbranch_ind.0, k.p_cbranch_ind.1) {
+                        let n = k.min_hints + rng.below(3 - k.min_hints);
                         for _ in 0..n { ind.push(pick_target(rng)); }
                         let e = hooks.ind_target(rng, &ctx);
                         jmps.push(Term { tid: next_tid(&mut instr), term: Jmp::BranchInd(e) });
